@@ -1,9 +1,9 @@
 """C19 — translator of generator FUNCTION BODIES: reads `modulo_counter`, `line`, `fadein`, `fadeout`, `attack`, `adsr`,
-`ones`, `zeros`, `impulse`, `sinusoid` from the source text of audiolazy/lazy_synth.py of the repo under test with `ast` (nothing is imported from the repo) and
+`ones`, `zeros`, `impulse`, `sinusoid`, `TableLookup.__call__` from the source text of audiolazy/lazy_synth.py of the repo under test with `ast` (nothing is imported from the repo) and
 writes them as Lean definitions over the number operations `NumOps` in the vocabulary of `lean/ALV/Model/C19Src.lean`
 (`forG`, `whileG`, `rangeG`, `takeRun`, `runPre`, `Iter.pre`, `post`, `modChain`, `nextOr`, `finiteG`) into
 `lean/ALV/Gen/C19Src.lean`.  `Props/C19.lean` proves `src_<f>_is_model`: each regenerated definition equals the code
-shaped model (`mcNow`, `lineG`, `adsrG`, `attackNow`, `constG`, `impulseG`) the other theorems of the slice are about.
+shaped model (`mcNow`, `lineG`, `adsrG`, `attackNow`, `constG`, `impulseG`, `sinusoidNow`, `tableCallNow`) the other theorems of the slice are about.
 
 The Python subset understood (anything else in a chosen function raises TranslationError = broken obligation):
   * parameters with constant defaults; the decorator `tostream`; a docstring
@@ -22,6 +22,10 @@ The Python subset understood (anything else in a chosen function raises Translat
     `try: x = next(it) / except StopIteration: return`, `if it is None: .. else: ..`
   * loops `for v[, v..] in xzip(l, ..) / l / xrange(k)` and `while True` whose body holds exactly one `yield`, not nested
   * `return f(args)` of another translated function (defaults filled in from its signature)
+  * the method `TableLookup.__call__` (Lean `table_call`): `len(self)`, `self.table`, `self.cycles * 2 * pi` (the parameter
+    `den`), `float(k)`, `number * argument`, `x = g(args)` of a translated generator, `tbl[int]`, `int(ceil(E))`,
+    `return Stream(E for v in x)` with the raising primitives of E bound in Python's order of evaluation; `__len__` and the
+    property `table` must be the one-liners of ACCESSORS
 Normalised away: whitespace, comments, docstrings, line numbers.  Variable names are kept (they are the names in the Lean text)."""
 import ast
 import os
@@ -42,26 +46,35 @@ PARAMS = {
     "zeros": [("dur", "optnum")],
     "impulse": [("dur", "optnum"), ("one", "item"), ("zero", "item")],
     "sinusoid": [("freq", "arg"), ("phase", "arg")],
+    "table_call": [("freq", "arg"), ("phase", "arg")],
 }
-ORDER = ["modulo_counter", "line", "fadein", "fadeout", "attack", "adsr", "ones", "zeros", "impulse", "sinusoid"]
+ORDER = ["modulo_counter", "line", "fadein", "fadeout", "attack", "adsr", "ones", "zeros", "impulse", "sinusoid",
+         "table_call"]
+# methods: Lean name -> (class, method); `self` is dropped, what is read of it comes in through EXTERNALS
+METHODS = {"table_call": ("TableLookup", "__call__")}
+# one-line methods / properties the translated methods go through, checked to be exactly these
+ACCESSORS = {("TableLookup", "__len__"): "return len(self._table)", ("TableLookup", "table"): "return self._table"}
 # functions whose items are of any type (the yielded values are parameters): `Run β`
 ITEM_FUNCS = {"impulse"}
 # names of the module that a function uses, as parameters of its Lean definition: `sin` (math.sin, any function of the
 # samples) and `twoPi`, the value of the expression `2 * pi` (part of the trusted vocabulary mapping)
-EXTERNALS = {"sinusoid": [("sin", "fn"), ("twoPi", "num")]}
+# and, for methods, what is read of `self`: `table` (self.table, a list; len(self) is its length) and `den`, the value of
+# the expression `self.cycles * 2 * pi`
+EXTERNALS = {"sinusoid": [("sin", "fn"), ("twoPi", "num")], "table_call": [("table", "table"), ("den", "num")]}
 BETA_FUNCS = ITEM_FUNCS | {"sinusoid"}
 SHORT = {"modulo_counter": "mc", "attack": "attack", "line": "line", "adsr": "adsr"}
 TAG = {"start": "P", "modulo": "M", "step": "S", "s": "S"}
 LEAN_TY = {"num": "α", "int": "Int", "bool": "Bool", "arg": "Arg α", "list": "List α", "optlist": "Option (List α)",
-           "optnum": "Option α", "item": "β", "fn": "α → β"}
+           "optnum": "Option α", "item": "β", "fn": "α → β", "table": "List α"}
 RESERVED = {"end", "begin", "from", "fun", "at", "do", "then", "else", "if", "let", "in", "open", "show", "have", "o",
             "nreads", "match", "with", "def", "where", "by", "Type", "instance", "structure", "import", "namespace"}
 FUEL = "nreads"
 NOT_TRANSLATED = {
     "white_noise / gauss_noise": "random values: only the duration is modelled (`noiseLen`)",
-    "TableLookup.__call__ / __getitem__ / operators / harmonize / normalize": "methods on an object with attributes and "
-        "list indexing with negative indices: outside the subset (hand models `tableCallG`, `lookupAtG`, `tableGetItem`, "
-        "Model/C19Obj)",
+    "TableLookup.__getitem__": "needs math.floor, which the record NumOps does not have (hand models `tableGetItem`, "
+                               "`getItemLen` over exact numbers, tied by sampling)",
+    "TableLookup operators / harmonize / normalize / __init__ / table setter": "methods on an object with mutable "
+        "attributes: outside the subset (hand models of Model/C19Obj)",
     "karplus_strong": "built from filter objects of lazy_filters (C04/C12 territory)",
     "resample (lazy_poly.py)": "deque / Stream.take / lagrange: outside the subset (hand model `resample`, refinement proved)",
 }
@@ -123,6 +136,33 @@ class Fn:
                 and type(node.left.value) is int and node.left.value == 2 and isinstance(node.right, ast.Name) \
                 and node.right.id == "pi" and env.get("twoPi") == "num" and "pi" not in env:
             return [], "twoPi", "num"          # the expression `2 * pi`, written exactly so
+        if env.get("self") == "self" and env.get("den") == "num" \
+                and ast.dump(node) == ast.dump(ast.parse("self.cycles * 2 * pi", mode="eval").body):
+            return [], "den", "num"            # the expression `self.cycles * 2 * pi`, written exactly so
+        if isinstance(node, ast.Subscript) and isinstance(node.value, ast.Name) and env.get(node.value.id) == "table":
+            idx = node.slice.value if isinstance(node.slice, getattr(ast, "Index", ())) else node.slice
+            b, t, ty = self.expr(idx, env)
+            if ty != "int":
+                bad(node, "a table is indexed with an int")
+            v = self.fresh()
+            return b + [(v, "indexG %s %s" % (lname(node.value.id), t))], v, "num"
+        if isinstance(node, ast.Call) and isinstance(node.func, ast.Name) and node.func.id == "int" and len(node.args) == 1 \
+                and not node.keywords and isinstance(node.args[0], ast.Call) and isinstance(node.args[0].func, ast.Name) \
+                and node.args[0].func.id == "ceil" and len(node.args[0].args) == 1 and not node.args[0].keywords:
+            b, t, ty = self.expr(node.args[0].args[0], env)
+            if ty != "num":
+                bad(node, "ceil() of a non-number")
+            v = self.fresh()
+            return b + [(v, "o.ceil %s" % t)], v, "int"
+        if isinstance(node, ast.Call) and isinstance(node.func, ast.Name) and node.func.id == "float" and len(node.args) == 1 \
+                and not node.keywords and isinstance(node.args[0], ast.Name) and env.get(node.args[0].id) == "int":
+            return [], "(o.ofInt %s)" % lname(node.args[0].id), "num"
+        if isinstance(node, ast.BinOp) and isinstance(node.op, ast.Mult) and isinstance(node.right, ast.Name) \
+                and env.get(node.right.id) == "arg":
+            b, t, ty = self.expr(node.left, env)       # number * (number or Stream): elementwise on a Stream
+            if b or ty != "num":
+                bad(node, "only a number that raises nothing multiplies an undecided argument")
+            return [], "(Arg.map (fun x => o.mul %s x) %s)" % (t, lname(node.right.id)), "arg"
         if isinstance(node, ast.UnaryOp) and isinstance(node.op, ast.USub):
             b, t, ty = self.expr(node.operand, env)
             if ty == "int":
@@ -323,6 +363,21 @@ class Fn:
                         + self.block(rest, self.define(env, x, "optlist"), path, ind))
             if isinstance(value, ast.Name) and env.get(value.id) == "arg":
                 bad(st, "copy of an argument whose kind is not decided yet")
+            if env.get("self") == "self" and ast.dump(value) == ast.dump(ast.parse("len(self)", mode="eval").body):
+                return (["%slet %s : Int := (table.length : Int)" % (ind, lname(x))]
+                        + self.block(rest, self.define(env, x, "int"), path, ind))
+            if env.get("self") == "self" and ast.dump(value) == ast.dump(ast.parse("self.table", mode="eval").body):
+                return (["%slet %s := table" % (ind, lname(x))] + self.block(rest, self.define(env, x, "table"), path, ind))
+            if isinstance(value, ast.Call) and isinstance(value.func, ast.Name) and value.func.id in self.sigs:
+                return (["%slet %s := %s" % (ind, lname(x), self.gen_call(value, env))]
+                        + self.block(rest, self.define(env, x, "run"), path, ind))
+            if x in env and env[x] in ("arg", "table", "run", "self", "fn"):
+                bad(st, "assignment to %r (%s)" % (x, env[x]))
+            b0, t0, ty0 = self.expr(value, env)
+            if ty0 == "arg":
+                if b0:
+                    bad(st, "raising argument expression")
+                return (["%slet %s := %s" % (ind, lname(x), t0)] + self.block(rest, self.define(env, x, "arg"), path, ind))
             lines, env2 = self.assign(st, env, "runPre", ind)
             return lines + self.block(rest, env2, path, ind)
         if isinstance(st, ast.If) and self.is_isinstance(st.test):
@@ -382,6 +437,22 @@ class Fn:
             if rest:
                 bad(rest[0], "statements after a stateful loop")
             return self.loop(st, env, path, ind)
+        if isinstance(st, ast.Return) and not rest and isinstance(st.value, ast.Call) and isinstance(st.value.func, ast.Name) \
+                and st.value.func.id == "Stream" and len(st.value.args) == 1 and not st.value.keywords \
+                and isinstance(st.value.args[0], ast.GeneratorExp):
+            # `return Stream(E for v in r)` with r the run of a generator: E, which may raise, of every output, lazily
+            ge = st.value.args[0]
+            if len(ge.generators) != 1:
+                bad(st, "generator expression with several `for`")
+            g = ge.generators[0]
+            if g.ifs or getattr(g, "is_async", 0) or not (isinstance(g.target, ast.Name) and isinstance(g.iter, ast.Name)
+                                                          and env.get(g.iter.id) == "run" and g.target.id not in env):
+                bad(st, "generator expression outside the subset")
+            b, t, ty = self.expr(ge.elt, dict(env, **{g.target.id: "num"}))
+            lines = ["%smapRunG (fun %s =>" % (ind, lname(g.target.id))]
+            lines += ["%s  bindE (%s) fun %s =>" % (ind, term, v) for v, term in b]
+            lines.append("%s  .ok %s) %s" % (ind, self.num(t, ty, ge.elt), lname(g.iter.id)))
+            return lines
         if isinstance(st, ast.Return) and st.value is not None and not rest:
             return [ind + self.call(st.value, env)]
         bad(st, "statement outside the subset")
@@ -416,10 +487,13 @@ class Fn:
         if not (isinstance(y, ast.Call) and isinstance(y.func, ast.Name) and env.get(y.func.id) == "fn" and not y.keywords
                 and len(y.args) == 1 and isinstance(y.args[0], ast.Name) and y.args[0].id == v and v not in env):
             bad(st, "the body of a loop over a generator must be `yield f(v)`")
-        call = st.iter
+        return ["%smapOut %s (%s)" % (ind, lname(y.func.id), self.gen_call(st.iter, env))]
+
+    def gen_call(self, call, env):
+        """a call `g(args, kw=args)` of a translated generator function -> its run"""
         g = call.func.id
-        if ORDER.index(g) >= ORDER.index(self.name) or g in BETA_FUNCS:
-            bad(st, "loop over a generator that is not translated before this function")
+        if ORDER.index(g) >= ORDER.index(self.name) or g in BETA_FUNCS or g in METHODS:
+            bad(call, "call of a generator that is not translated before this function")
         sig = self.sigs[g]
         given = {}
         for i, a in enumerate(call.args):
@@ -447,7 +521,7 @@ class Fn:
                 args.append(t)
             else:
                 bad(call, "argument %r: %s given, %s needed" % (p, ty, kind))
-        return ["%smapOut %s (ALV.Gen.C19.%s o %s %s)" % (ind, lname(y.func.id), g, " ".join(args), FUEL)]
+        return "ALV.Gen.C19.%s o %s %s" % (g, " ".join(args), FUEL)
 
     # ---- list segments ------------------------------------------------------------------------------------
     def single_yield(self, st):
@@ -634,11 +708,31 @@ def read_functions(text):
     """source text -> {name: FunctionDef} of the wanted top-level functions"""
     tree = ast.parse(text)
     found = {}
+    seen_acc = set()
     for node in tree.body:
         if isinstance(node, ast.FunctionDef) and node.name in PARAMS:
             if node.name in found:
                 raise TranslationError("%s defined twice" % node.name)
             found[node.name] = node
+        if isinstance(node, ast.ClassDef):
+            for sub in node.body:
+                if not isinstance(sub, ast.FunctionDef):
+                    continue
+                for lean, (cls, meth) in METHODS.items():
+                    if (node.name, sub.name) == (cls, meth):
+                        if lean in found:
+                            raise TranslationError("%s.%s defined twice" % (cls, meth))
+                        found[lean] = sub
+                want = ACCESSORS.get((node.name, sub.name))
+                getter = [ast.dump(d) for d in sub.decorator_list] in ([], [ast.dump(ast.Name(id="property", ctx=ast.Load()))])
+                if want is not None and getter:
+                    body = [b for b in sub.body if not (isinstance(b, ast.Expr) and isinstance(b.value, ast.Constant))]
+                    if [ast.dump(b) for b in body] != [ast.dump(b) for b in ast.parse(want).body] \
+                            or [a.arg for a in sub.args.args] != ["self"]:
+                        raise TranslationError("%s.%s is not `%s`" % (node.name, sub.name, want))
+                    seen_acc.add((node.name, sub.name))
+    if set(ACCESSORS) - seen_acc:
+        raise TranslationError("accessors not found: %s" % sorted(set(ACCESSORS) - seen_acc))
     missing = [f for f in ORDER if f not in found]
     if missing:
         raise TranslationError("functions not found: %s" % missing)
@@ -649,13 +743,18 @@ def signature(fn):
     a = fn.args
     if a.vararg or a.kwarg or a.kwonlyargs or getattr(a, "posonlyargs", None):
         bad(fn, "*args / **kwargs / keyword-only / positional-only parameters")
-    want = PARAMS[fn.name]
-    if [p.arg for p in a.args] != [p for p, _ in want]:
-        bad(fn, "parameters %s, expected %s" % ([p.arg for p in a.args], [p for p, _ in want]))
+    want = PARAMS[fn.lean_name]
+    given = [p.arg for p in a.args]
+    if fn.lean_name in METHODS:
+        if given[:1] != ["self"]:
+            bad(fn, "a method without self")
+        given = given[1:]
+    if given != [p for p, _ in want]:
+        bad(fn, "parameters %s, expected %s" % (given, [p for p, _ in want]))
     nd = len(a.defaults)
     out = []
     for i, (p, kind) in enumerate(want):
-        k = i - (len(a.args) - nd)
+        k = i - (len(given) - nd)
         d = a.defaults[k] if k >= 0 else None
         if d is not None and kind == "optnum" and isinstance(d, ast.Constant) and d.value is None:
             pass
@@ -676,6 +775,8 @@ def decorators(fn):
 
 def translate(text):
     fns = read_functions(text)
+    for f in fns:
+        fns[f].lean_name = f
     sigs = {f: signature(fns[f]) for f in ORDER}
     out = ["/- GENERATED by harness/props/c19_tr.py from audiolazy/lazy_synth.py (function bodies read with `ast`):",
            "   " + ", ".join(ORDER) + ".",
@@ -698,7 +799,7 @@ def translate(text):
                 and isinstance(body[0].value.value, str):
             body = body[1:]
         tr = Fn(f, sigs)
-        env = {}
+        env = {"self": "self"} if f in METHODS else {}
         for p, kind in EXTERNALS.get(f, []):
             env = tr.define(env, p, kind)
         for p, kind, _ in sigs[f]:
@@ -778,6 +879,14 @@ EDITS = [
     ("sinusoid: modulo pi", "modulo_counter(start=phase, modulo=2 * pi, step=freq)",
      "modulo_counter(start=phase, modulo=pi, step=freq)"),
     ("sinusoid: the counter itself is yielded", "    yield sin(n)", "    yield n"),
+    ("TableLookup.__call__: counter arguments swapped", "tbl_iter = modulo_counter(part, total_len_float, step)",
+     "tbl_iter = modulo_counter(step, total_len_float, part)"),
+    ("TableLookup.__call__: right neighbour without the wrap", "tbl[int(ceil(idx)) - total_length]", "tbl[int(ceil(idx))]"),
+    ("TableLookup.__call__: left weight is the fraction", "return Stream(tbl[int(idx)] * (1. - (idx - int(idx))) +",
+     "return Stream(tbl[int(idx)] * (idx - int(idx)) +"),
+    ("TableLookup.__call__: cycle length without the cycles", "cycle_length = total_len_float / (self.cycles * 2 * pi)",
+     "cycle_length = total_len_float / (2 * pi)"),
+    ("TableLookup.__len__ counts something else", "    return len(self._table)", "    return len(self._table) - 1"),
     ("impulse: the one is yielded after the zeros (reorder)", "    yield one\n    for x in xrange(num_samples):\n      yield zero",
      "    for x in xrange(num_samples):\n      yield zero\n    yield one"),
 ]
